@@ -12,11 +12,13 @@ trace) and must return the same events and the same final context, or the same f
 """
 from __future__ import annotations
 
+import contextlib
 import copy
 import logging
 import random
 import re
 
+from . import hook
 from .compile_tie import tree_of_rows
 from .flows import table_from_rows
 
@@ -72,27 +74,44 @@ def trace_flat(headers, rows, context=None):
     events, table, scans = [], [], []
     state = {"last": None, "begins": [], "next": None}
 
+    def on_push():
+        pos, _ = state["last"]
+        state["begins"].append(pos)
+        events.append(["open", pos])
+
+    def on_pop():
+        events.append(["close", state["begins"].pop()])
+
+    def on_row(*a, **kw):
+        pos, key = state["last"]
+        events.append(["row", pos, key])
+
+    def nothing(*a, **kw):
+        pass
+
     class Stack(list):
         def append(self, x):
-            pos, _ = state["last"]
-            state["begins"].append(pos)
-            events.append(["open", pos])
+            on_push()
             super().append(x)
 
         def pop(self, *a):
-            events.append(["close", state["begins"].pop()])
+            on_pop()
             return super().pop(*a)
 
-    class Tracer(FlowParser):
-        def _parse_row(self, row):
-            pos, key = state["last"]
-            events.append(["row", pos, key])
+    # the consumers of the block machine are REPLACED (not only observed): with the project's hook their current
+    # names are read off a probe run (hook.hosts: who calls the hook), otherwise the names the harness knows
+    use_hook = hook.available()
+    names = (hook.hosts() if use_hook else None) or {"row": "_parse_row", "noop_row": "_parse_noop_row", "append_group": "append_node_group"}
+    Tracer = type("Tracer", (FlowParser,), {names["row"]: lambda self, *a, **kw: on_row(),
+                                            names["noop_row"]: nothing, names["append_group"]: nothing})
 
-        def _parse_noop_row(self, row, store_row_id=True):
-            pass
-
-        def append_node_group(self, g, row_id):
-            pass
+    def sink(name, d):
+        if d["parser"] is not p:
+            return
+        if name == "push":
+            on_push()
+        elif name == "pop":
+            on_pop()
 
     p = Tracer(RapidProContainer(), "flow", table_from_rows(headers, rows), context=copy.deepcopy(context) if context else None)
     sp = p.sheet_parser
@@ -136,11 +155,14 @@ def trace_flat(headers, rows, context=None):
         return (row, idx) if return_index else row
 
     sp.parse_next_row = wrapped
-    p.node_group_stack = Stack(p.node_group_stack)
+    if not use_hook:
+        p.node_group_stack = Stack(p.node_group_stack)
     real = None
-    with _Stopper():
+    with _Stopper(), (hook.sink(sink) if use_hook else contextlib.nullcontext()):
         try:
-            p._parse_block()
+            # (hook: through the public entry point — the group stack is balanced whenever the block machine returns,
+            # so parse_as_block adds nothing to _parse_block here)
+            p.parse_as_block() if use_hook else p._parse_block()
             real = {"events": events, "ctx": ctx_key(sp.context)}
         except _Stop as e:
             msg = str(e)
